@@ -1,5 +1,5 @@
 """Per-property check procedures. Each takes a vcheck.Ctx."""
-import json, os, random
+import json, os, random, re
 from vcheck import Broken, write_ndjson, read_ndjson
 
 TABLE = {}
@@ -114,6 +114,7 @@ CONSTANTS
   N = %d
   C = %d
   CountFirst = %s
+  EarlyAccept = FALSE
 %s
 CHECK_DEADLOCK FALSE
 """
@@ -137,6 +138,11 @@ def c19(ctx):
     if r["status"] != "invariant":
         raise Broken("Mesh.tla no longer distinguishes count-before-add from add-before-count: %s" % r["status"])
     ctx.cov["spec_detects_count_before_add"] = True
+    r = ctx.tlc("Mesh", "Mesh_mc.cfg", name="mesh-mc-earlyaccept",
+                cfg_text=(MESH_CFG % ("Spec", 3, 1, "FALSE", "INVARIANT Safety")).replace("EarlyAccept = FALSE", "EarlyAccept = TRUE"))
+    if r["status"] != "invariant":
+        raise Broken("Mesh.tla does not reject an accept loop that runs before need[] is set: %s" % r["status"])
+    ctx.cov["spec_rejects_deviations"] = ["count-before-add", "accept-before-need-is-set"]
     # (G) behaviours replayed through the gates on real sockets
     gens = [(3, 2, 40), (4, 1, 30), (2, 2, 6)] if not thorough else [(3, 2, 200), (4, 1, 150), (4, 2, 100), (5, 2, 60), (3, 4, 60), (2, 3, 20)]
     allcases = []
@@ -308,9 +314,12 @@ CONSTANTS
   Ops = {"XOR", "XNOR", "AND", "OR", "INV"}
   FreeS = %s
   MaxFaults = %d
+  Deviating = FALSE
+  RangeRule = "exact"
 %s
 CHECK_DEADLOCK FALSE
 """
+TP_DEV_CFG = TP_CFG.replace("Deviating = FALSE", "Deviating = TRUE").replace('RangeRule = "exact"', 'RangeRule = "%s"')
 
 
 def sample_cases(cases, n, seed):
@@ -385,6 +394,15 @@ def c04(ctx):
                       cfg_text=TP_CFG % ("PSpec", 2, 1, "TRUE", 0, "INVARIANT Secrecy"))
     ctx.tlc_expect_ok("TwoParty", "TwoParty_c04.cfg", name="tp-secrecy-2", timeout=3000,
                       cfg_text=TP_CFG % ("PSpec", 2 if not thorough else 3, 2, "FALSE", 0, "INVARIANT Secrecy"))
+    # a deviating evaluator (any OT range, any choice bits) against the range check as coded; the same model with
+    # the check loosened to "the range ends at the last input wire" must lose Secrecy (vacuity guard)
+    ctx.tlc_expect_ok("TwoParty", "TwoParty_c04.cfg", name="tp-secrecy-deviating", timeout=3000,
+                      cfg_text=TP_DEV_CFG % ("PSpec", 2, 1, "TRUE", 0, "exact", "INVARIANT Secrecy"))
+    r = ctx.tlc("TwoParty", "TwoParty_c04.cfg", name="tp-secrecy-guard-range", timeout=3000,
+                cfg_text=TP_DEV_CFG % ("PSpec", 2, 1, "TRUE", 0, "end", "INVARIANT Secrecy"))
+    if r["status"] != "invariant":
+        raise Broken("TwoParty.tla with RangeRule = \"end\" and a deviating evaluator does not violate Secrecy: %s" % r["status"])
+    ctx.cov["spec_rejects_deviations"] = ["ot-range-check-loosened"]
     # the model is sensitive: a garbler that also sends the sibling of an own-input label violates NoPair
     # (checked through the trace spec's self-test below)
     trace = os.path.join(ctx.tmp, "secrecy_trace.ndjson")
@@ -499,6 +517,21 @@ CHECK_DEADLOCK FALSE
 """
 
 
+STREAMWIRE_CFG = """SPECIFICATION Spec
+CONSTANTS
+  Page = 2
+  IdSet = {0, 1, 2, 3}
+  Ops = {"AND", "INV"}
+  MaxGates = %d
+  MaxCircs = %d
+  NIn = 2
+  FlagRule = "%s"
+  DeclRule = "%s"
+INVARIANT Safety
+CHECK_DEADLOCK FALSE
+"""
+
+
 @prop("C05")
 def c05(ctx):
     thorough = ctx.tier == "thorough"
@@ -523,10 +556,64 @@ def c05(ctx):
         if r["status"] != "invariant":
             raise Broken("Stream.tla no longer finds the %s counterexample: %s" % (nm, r["status"]))
     ctx.cov["spec_detects"] = ["one-level-aliases", "concat-untracked"]
+    # (M) wire-protocol layer (StreamWire.tla): gate encoding as garbleGate writes it against the evaluator's stores
+    sw = lambda gates, circs, flag, decl: STREAMWIRE_CFG % (gates, circs, flag, decl)
+    if thorough:
+        ctx.tlc_expect_ok("StreamWire", "StreamWire_mc.cfg", name="streamwire-mc", timeout=3400, cfg_text=sw(2, 2, "abc", "numwires"), heap="12g")
+    else:
+        ctx.tlc_expect_ok("StreamWire", "StreamWire_mc.cfg", name="streamwire-mc", timeout=1200, cfg_text=sw(1, 2, "abc", "numwires"))
+        ctx.tlc_expect_ok("StreamWire", "StreamWire_mc.cfg", name="streamwire-mc-2", timeout=1200, cfg_text=sw(2, 1, "abc", "numwires"))
+    for nm, a in (("short-flag-ignores-b", (1, 2, "ac", "numwires")), ("tmp-array-sized-by-tmp-count", (2, 1, "abc", "tmpcount"))):
+        r = ctx.tlc("StreamWire", "StreamWire_mc.cfg", name="streamwire-guard-" + nm, cfg_text=sw(*a), timeout=1200)
+        if r["status"] != "invariant":
+            raise Broken("StreamWire.tla no longer rejects the deviation %s: %s" % (nm, r["status"]))
+        ctx.cov["spec_detects"].append(nm)
     trace = os.path.join(ctx.tmp, "stream_trace.ndjson")
     res = os.path.join(ctx.tmp, "c05res.ndjson")
-    ctx.run_vh(["c05", "run", trace, res, 600 if thorough else 60], timeout=3400)
+    wdir = os.path.join(ctx.tmp, "wire")
+    os.makedirs(wdir, exist_ok=True)
+    wire = os.path.join(wdir, "streamwire_trace.ndjson")
+    ctx.run_vh(["c05", "run", trace, res, 600 if thorough else 60, wire], timeout=3400)
     n = ctx.absorb(res)
+    # (T) the bytes of real sessions, parsed into messages, against the evaluator machine of StreamWire.tla
+    wrows = read_ndjson(wire)
+    if not wrows:
+        raise Broken("no streaming transcript was parsed")
+    wt = ctx.tlc("StreamWireTrace", "StreamWireTrace.cfg", mode="trace", files=[wire], timeout=3000, xss="512m", name="streamwire-trace")
+    nsess = 1 + len([r for r in wrows if r["ev"] == "reset"])
+    if wt["status"] == "invariant":
+        m = re.search(r'bad = \{<<"([^"]+)", (\d+)>>', wt["out"])
+        tag, ln = (m.group(1), int(m.group(2))) if m else ("?", 0)
+        # not by itself a violation of C05 (results are compared separately): the stream is not what the model says
+        ctx.drift.append("StreamWireTrace: %s at line %d of the parsed transcript: %s" % (tag, ln, json.dumps(wrows[ln - 1])[:300] if 0 < ln <= len(wrows) else ""))
+    elif wt["status"] != "ok":
+        raise Broken("StreamWireTrace failed: %s\n%s" % (wt["status"], wt["out"][-3000:]))
+    else:
+        ctx.cov["traces_validated_against_impl"] += nsess
+    ctx.cov["wire_sessions"] = nsess
+    ctx.cov["wire_gate_messages"] = sum(len(r["g"]) for r in wrows if r["ev"] == "gates")
+    # binding self-test: a gate that reads a temporary the current circuit has not written must be rejected
+    w2 = [json.loads(json.dumps(r)) for r in wrows]
+    hit = False
+    for r in w2:
+        if r["ev"] == "gates":
+            for gt in r["g"]:
+                if gt[1] & 8 == 0 and gt[0] != 4:
+                    gt[1] |= 8          # "a is a temporary"
+                    gt[2] = 0           # local wire 0 is an input, never a written temporary
+                    hit = True
+                    break
+        if hit:
+            break
+    if hit:
+        sdir = os.path.join(ctx.tmp, "wire-selftest")
+        os.makedirs(sdir, exist_ok=True)
+        write_ndjson(os.path.join(sdir, "streamwire_trace.ndjson"), w2)
+        x = ctx.tlc("StreamWireTrace", "StreamWireTrace.cfg", mode="trace", files=[os.path.join(sdir, "streamwire_trace.ndjson")],
+                    timeout=3000, xss="512m", name="streamwire-selftest")
+        if x["status"] != "invariant":
+            raise Broken("binding self-test: StreamWireTrace accepted a gate reading an unwritten temporary (%s)" % x["status"])
+        ctx.cov.setdefault("binding_selftest", {})["stale-temporary-read"] = x["status"]
     # (G) abstract SSA programs enumerated from Stream.tla, rendered as MPCL and run in both modes
     g = ctx.tlc("StreamGen", "Stream_gen.cfg", mode="sim", workers=1, sim="num=%d" % (3000 if thorough else 300), depth=7,
                 name="stream-gen", timeout=3000, cfg_text=STREAM_GEN_CFG % 4)
@@ -578,7 +665,7 @@ def c05(ctx):
         x = ctx.tlc("StreamTrace", "StreamTrace.cfg", mode="trace", files=[p], name="stream-selftest")
         if x["status"] != "invariant":
             raise Broken("binding self-test: StreamTrace accepted an overwritten live wire id")
-        ctx.cov["binding_selftest"] = {"overwritten-id": x["status"]}
+        ctx.cov.setdefault("binding_selftest", {})["overwritten-id"] = x["status"]
     ctx.cov["rule"] = ("one evaluation = one (program, input pair) run in both modes; programs are alias-heavy (casts, constant shifts, "
                        "slices, array updates, concatenations, struct copies) templates and seeded generated programs; all are non-trivial; "
                        "classes: template / generated / big-ids (> 65535 live wire ids) / rejected (does not compile)")
@@ -983,7 +1070,7 @@ CONSTANTS
 %s
 CHECK_DEADLOCK FALSE
 """
-MPCL_ALL_KINDS = '{"const", "lit", "bin", "cmp", "logic", "neg", "shift", "cast", "if", "ifnest", "ifret", "loop", "arr", "mat", "call", "struct"}'
+MPCL_ALL_KINDS = '{"const", "lit", "bin", "cmp", "logic", "neg", "shift", "cast", "if", "ifnest", "ifret", "loop", "loopret", "nest", "shadow", "arr", "mat", "call", "struct"}'
 
 
 def mpcl_cases(ctx, name, widths, nstmts, num, kinds=MPCL_ALL_KINDS, limit=None):
@@ -1029,6 +1116,14 @@ def c03(ctx):
                         kinds='{"arr", "mat", "struct", "neg"}')
     cases += mpcl_cases(ctx, "mpcl-gen-e", "{5, 13}", 6, 1500 if thorough else 250, limit=4000 if thorough else 600,
                         kinds='{"arr", "mat", "struct"}')
+    # loops only: nested loops, the loop variable as an operand, returns inside an unrolled loop (guarded by the loop
+    # variable or by a run-time condition), a local shadowing a package-level variable across a run-time if
+    cases += mpcl_cases(ctx, "mpcl-gen-f", "{3, 8}", 6, 2000 if thorough else 400, limit=6000 if thorough else 900,
+                        kinds='{"cmp", "lit", "loop", "loopret", "nest", "shadow", "ifret"}')
+    # statements that need a boolean are starved when arithmetic is available (TLC's simulation picks uniformly among
+    # successor states): comparisons, ifs, early returns and shadowing on their own
+    cases += mpcl_cases(ctx, "mpcl-gen-g", "{3, 8}", 5, 1500 if thorough else 300, limit=5000 if thorough else 700,
+                        kinds='{"cmp", "shadow", "if", "ifret"}')
     cf = os.path.join(ctx.tmp, "c03cases.ndjson")
     write_ndjson(cf, cases)
     rf = os.path.join(ctx.tmp, "c03res.ndjson")
@@ -1569,7 +1664,9 @@ def c08(ctx):
               (["mul"], ["s16", "s32"], ["gmw"], 4, 4),
               (["mul", "arith"], ["s24x40"], ["default", "thresh8"], 5, 4),
               (["arith", "funcs"], ["none"], ["default", "gmw"], 6, 5),
-              (["libs"], ["none"], ["default", "prune"], 5, 4)]
+              (["libs"], ["none"], ["default", "prune"], 5, 4),
+              # several imported packages with package-level variables (their initialisers are emitted per package)
+              (["imports"], ["none"], ["default", "prune"], 5, 3)]
     if thorough:
         combos = [(p, s, v, n + 2, k * 4) for (p, s, v, n, k) in combos]
         combos += [(["hmac"], ["none"], ["default"], 5, 4), (["aes"], ["none"], ["default", "gmw"], 4, 3),
